@@ -43,21 +43,29 @@ Section Shipped.
     apply andb_prop in E as [E1 E2]. apply Proofs.EngineC17.list_eqb_eq in E1. rewrite E1. auto.
   Qed.
 
-  (* for EVERY state-machine model whose element names are admitted for the file, and every assignment of user tags *)
+  (* for EVERY state-machine model whose element names are admitted for the file, and every assignment of user tags (the file has no
+     line with user tags outside blocks: such lines are the business of C16_generate_user) *)
   Theorem shipped_output m (a : usertags) :
-    wf_elements16 t (elements_of_model m) = true ->
+    no_user_lines t = true -> wf_elements16 t (elements_of_model m) = true ->
     generate_file m dict0 a lines = Some (ref16 (elements_of_model m) t)
     /\ forallb no_generator_tag (flat_map (ref_item16 (elements_of_model m)) t) = true.
   Proof.
-    intros Hw. destruct shipped_facts as [Hl Hg]. split.
-    - apply generate_is_ref; assumption.
-    - apply (forallb_impl tagfree); [exact tagfree_no_generator_tag|]. apply ref_lines_tagfree; assumption.
+    intros Hn Hw. destruct shipped_facts as [Hl Hg].
+    assert (Hw' : wf_elements16 t (with_user a (elements_of_model m)) = true) by (rewrite (wf_no_user a _ t Hn); exact Hw).
+    split.
+    - rewrite <- (ref16_no_user a _ t Hn). apply generate_is_ref; assumption.
+    - apply (forallb_impl tagfree); [exact tagfree_no_generator_tag|]. rewrite <- (lines_no_user a _ t Hn). apply ref_lines_tagfree; assumption.
   Qed.
+  (* with user lines: for every assignment of user tags admitted for the file *)
+  Theorem shipped_output_user m (a : usertags) :
+    wf_elements16 t (with_user a (elements_of_model m)) = true ->
+    generate_file m dict0 a lines = Some (ref16 (with_user a (elements_of_model m)) t).
+  Proof. intros Hw. destruct shipped_facts as [Hl Hg]. apply generate_is_ref; assumption. Qed.
 End Shipped.
 
 Lemma shipped_output_flat lines l0 t m (a : usertags) :
-  shipped16 dict0 lines = Some (l0, t) ->
+  shipped16 dict0 lines = Some (l0, t) -> no_user_lines t = true ->
   wf_elements16 t (elements_of_model m) = true ->
   generate_file m dict0 a lines = Some (ref16 (elements_of_model m) t)
   /\ forallb no_generator_tag (flat_map (ref_item16 (elements_of_model m)) t) = true.
-Proof. intros Hs Hw. exact (shipped_output lines l0 t Hs m a Hw). Qed.
+Proof. intros Hs Hn Hw. exact (shipped_output lines l0 t Hs m a Hn Hw). Qed.
